@@ -344,8 +344,9 @@ Contract(
     params={"self": TGR},
     ret=ETy,
     trusted=True,
+    may_raise=("ValueError",),
     ensures=lambda c: c.res == TGD(c.arg("self")),
-    note="TaskGraph.deadline: a pure function of the graph (max deadline over sinks)",
+    note="TaskGraph.deadline: a pure function of the graph; its meaning (the latest task deadline of the graph, ValueError for a graph without nodes) is verified against the body as TaskGraph.deadline#body and related to this contract by TaskGraph.deadline#refines",
     props=("C08",),
 )
 Contract("workload.tasks.TaskGraph.name", params={"self": TGR}, ret=T.STR, trusted=True, ensures=lambda c: z3.BoolVal(True), note="TaskGraph.name (only logged)", props=("C08",))
